@@ -1192,6 +1192,11 @@ class Interp:
             h = self.world.extern_contains(self, container, item)
             if h is not NotImplementedVal:
                 return h
+            if getattr(container.cls, 'node', None) is None and container.cls.name in getattr(self.world, 'abstract', {}):
+                # an abstract stand-in for an external / symbolic container: the real object may well support `in`; no model = undecided, never an exception of the program
+                raise Unsupported('membership test on an abstract %s object has no model' % container.cls.name)
+            if self.world.find_method(container.cls, '__iter__') is not None or self.world.find_method(container.cls, '__getitem__') is not None:
+                raise Unsupported('membership test through __iter__ / __getitem__ of %s' % container.cls.name)
             raise self.exc('TypeError', 'argument of type %s is not iterable' % container.cls.name)
         if isinstance(container, dict):
             return self.dict_has(container, item)
